@@ -22,7 +22,7 @@ RULE = (
 ASSUMPTIONS = ["the structural predicate is evaluated on per-register walks of the circuit (reg_gate_history) plus validate()",
                "'placed at initialisation' = operations labelled Fixed of type CNOT / MeasurementCNOTandReset in the start circuit, tracked as a "
                "multiset of (type, control, target) because moves copy circuits"]
-REQUIRED_CLASSES = {"moves": ["start:init", "start:solver", "two_qubit_inserted", "removed", "mcr_inserted", "randomize"]}
+REQUIRED_CLASSES = {"moves": ["start:init", "start:solver", "two_qubit_inserted", "removed", "mcr_inserted", "randomize", "idle_emitter_at_initialisation"]}
 
 MOVES = ["add_emitter_one_qubit_op", "add_emitter_cnot", "replace_photon_one_qubit_op", "replace_emitter_one_qubit_op",
          "add_photon_one_qubit_op", "remove_op", "add_measurement_cnot_and_reset", "randomize_circuit"]
@@ -36,6 +36,18 @@ def fixed_signature(circ):
         if d and d[0] in ("CNOT", "MCR"):
             sig.append(tuple(d[:5]))
     return sorted(sig)
+
+
+def placed_signature(circ):
+    """every emitter->photon CNOT and every measure-and-reset in the circuit, whatever its labels"""
+    from collections import Counter
+
+    sig = Counter()
+    for op in circ.sequence():
+        d = gc.name_of(op)
+        if d and ((d[0] == "CNOT" and d[1] == "e" and d[3] == "p") or d[0] == "MCR"):
+            sig[tuple(d[:5])] += 1
+    return sig
 
 
 def predicate(circ, sub, site, icls, what=""):
@@ -109,8 +121,15 @@ def check_moves(case, sub="moves"):
     solver, comp, metric = c19.build_solver({"n": case["n"], "mask": case["mask"], "solver": "hybrid" if start == "solver" else "evolutionary",
                                              "ne": case["ne"], "n_pop": 1, "n_stop": 1, "n_hof": 1})
     if start == "init":
-        ea = guarded(sub, "init", solver.get_emission_assignment, case["n"], case["ne"])
-        ma = guarded(sub, "init", solver.get_measurement_assignment, case["n"], case["ne"])
+        if case.get("ea") is not None:
+            # assignments drawn by the generator: any emitter per photon (emitters may stay idle), any photon per emitter
+            ea = [x % case["ne"] for x in case["ea"]][: case["n"]] + [0] * max(0, case["n"] - len(case["ea"]))
+            ma = [x % case["n"] for x in case["ma"]][: case["ne"]] + [0] * max(0, case["ne"] - len(case["ma"]))
+            if len(set(ea)) < case["ne"]:
+                cl.add("idle_emitter_at_initialisation")
+        else:
+            ea = guarded(sub, "init", solver.get_emission_assignment, case["n"], case["ne"])
+            ma = guarded(sub, "init", solver.get_measurement_assignment, case["n"], case["ne"])
         circ = guarded(sub, "init", solver.initialization, ea, ma)
     else:
         det = guarded(sub, "init", c03.solver_for_graph, case)
@@ -118,6 +137,9 @@ def check_moves(case, sub="moves"):
         circ = det.result[1]
     predicate(circ, sub, "initial", start, "start circuit")
     fixed0 = fixed_signature(circ)
+    # an initialisation circuit consists of the emission CNOTs, the measure-and-resets and one-qubit gates: all of the former
+    # were "placed at initialisation", labelled or not
+    placed0 = placed_signature(circ) if start == "init" else None
     inserted2 = removed_after = False
     nontrivial = False
     for name, seed in case["moves"]:
@@ -139,6 +161,11 @@ def check_moves(case, sub="moves"):
         if fixed_signature(circ) != fixed0:
             raise Violation(sub, "fixed-removed", name, start, "emission CNOTs / measure-and-resets placed at initialisation changed: %s -> %s" % (
                 fixed0, fixed_signature(circ)))
+        if placed0 is not None:
+            now = placed_signature(circ)
+            lost = [k for k, v in placed0.items() if now.get(k, 0) < v]
+            if lost:
+                raise Violation(sub, "fixed-removed", name, start, "operation(s) placed at initialisation are gone: %s" % (lost,))
         if name in ("add_emitter_cnot", "add_measurement_cnot_and_reset") and len(after) > len(before):
             inserted2 = True
             cl.add("two_qubit_inserted")
@@ -201,8 +228,9 @@ def strat_solver_outputs(tier):
 def strat_moves(tier):
     L = 30 if tier == "quick" else 80
     mv = st.lists(st.tuples(st.sampled_from(MOVES), st.integers(0, 2**31 - 1)).map(list), min_size=1, max_size=L)
+    asg = st.one_of(st.none(), st.lists(st.integers(0, 5), min_size=5, max_size=5))
     init = st.fixed_dictionaries({"start": st.just("init"), "n": st.integers(1, 5), "mask": st.just(0), "ne": st.integers(1, 3),
-                                  "seed": st.integers(0, 10**6), "moves": mv})
+                                  "seed": st.integers(0, 10**6), "moves": mv, "ea": asg, "ma": st.lists(st.integers(0, 5), min_size=3, max_size=3)})
     sol = st.tuples(gg.st_graph(2, 6, no_isolated=True), st.integers(0, 10**6), mv).map(
         lambda t: dict(t[0], start="solver", ne=1, seed=t[1], moves=t[2]))
     return st.one_of(init, sol)
@@ -214,7 +242,8 @@ def fix_init(case):
         case = dict(case, mask=gg.named(case["n"], "path") if case["n"] >= 2 else 0)
         if case["n"] < 2:
             case = dict(case, n=2, mask=1)
-        case["ne"] = min(case["ne"], case["n"])
+        if case.get("ea") is None:
+            case["ne"] = min(case["ne"], case["n"])
     return case
 
 
